@@ -615,4 +615,150 @@ theorem poolGaugesLoop_ext (denom : Nat) (hs : Bool) : ∀ (ds : List Nat) (s : 
     | panic => exact ⟨⟨l1, e1⟩, e2⟩
     | halt => exact ⟨⟨l1, e1⟩, e2⟩
 
+theorem addToGauge_named (s : State) (hi : IdsT (gstat s.gauges)) (o gid : Nat) (c : Coins) (h : NamedS s) :
+    NamedS (addToGauge s o gid c).2 := by
+  unfold addToGauge
+  split
+  · exact h
+  · cases hg : getGauge s gid with
+    | none => exact h
+    | some g =>
+      simp only
+      split
+      · exact h
+      · cases hb : s.bank.send o incAddr c with
+        | none => exact h
+        | some b =>
+          simp only
+          have hw : Wst (gstat s.gauges) g := wst_store s.gauges hi gid g hg
+          have he : gstat (setGauge { s with bank := b } { g with coins := Coins.add g.coins c }).gauges = gstat s.gauges :=
+            gstat_set s.gauges g _ hw rfl rfl
+          exact NamedS_of_ext h [] (by rw [he]; simp) rfl
+
+theorem createStream_named (s : State) (c : Coins) (rs : List Rec) (st e n : Nat) (h : NamedS s) :
+    NamedS (createStream s false c rs st e n).2 := by
+  unfold createStream
+  split
+  · exact h
+  · split
+    · exact h
+    · next hv =>
+      split
+      · exact h
+      · cases hm : moduleToDistribute s with
+        | none => exact h
+        | some alloc =>
+          simp only
+          cases hf : Coins.sub? (s.bank.get streamerAddr) alloc with
+          | none => exact h
+          | some free =>
+            simp only
+            split
+            · exact h
+            · split
+              · exact h
+              · cases hu : Refs.add s.upcoming (if st < s.now then s.now else st) (s.streams.length + 1) with
+                | none => exact h
+                | some u =>
+                  simp only
+                  have hval : validateRecs s rs 0 [] = true := by simpa using hv
+                  intro x hx
+                  rcases List.mem_append.1 hx with h1 | h1
+                  · exact h x h1
+                  · have : x = _ := List.mem_singleton.1 h1
+                    rw [this]
+                    exact ⟨rfl, fun r hr => validateRecs_named s rs 0 [] hval r (by simpa using hr)⟩
+
+theorem terminateStream_named (s : State) (id : Nat) (h : NamedS s) : NamedS (terminateStream s id).2 := by
+  unfold terminateStream
+  cases hg : getStream s id with
+  | none => exact h
+  | some st =>
+    simp only
+    split
+    · exact h
+    · cases hm : moveToFinished s (st.isActive s.now) st with
+      | none => exact h
+      | some s' =>
+        simp only
+        unfold moveToFinished at hm
+        cases hd : Refs.del (if st.isActive s.now = true then s.active else s.upcoming) st.start st.id with
+        | none => simp [hd] at hm
+        | some r =>
+          simp only [hd] at hm
+          cases ha : Refs.add s.finished st.start st.id with
+          | none => simp [ha] at hm
+          | some f =>
+            simp only [ha] at hm
+            split at hm
+            · simp only [Option.some.injEq] at hm; rw [← hm]; exact h
+            · simp only [Option.some.injEq] at hm; rw [← hm]; exact h
+
+/-- **one step keeps the invariant** -/
+theorem step_named (s : State) (op : Op) (hi : IdsT (gstat s.gauges)) (h : NamedS s) (hr : op.noRetarget) (hn : op.notSponsored) :
+    NamedS (step s op).2 := by
+  unfold step
+  split
+  · exact h
+  · cases op with
+    | begin dt => exact NamedS_of_tr h (beginBlock_tr s dt hi)
+    | end_ =>
+      simp only
+      cases he : streamerEndBlock s with
+      | ok s' => exact NamedS_of_tr h (endBlock_tr s s' hi he)
+      | error e => exact h
+    | setMaxIter n => exact h
+    | fund a c => exact h
+    | locks ls => exact h
+    | rollapp r o l => exact h
+    | rollappGauge r =>
+      simp only
+      unfold createRollappGauge
+      cases hra : s.rollapps[r]? with
+      | none => exact h
+      | some ra =>
+        simp only
+        split
+        · exact h
+        · exact NamedS_of_ext h [(s.gauges.length + 1, true)] (by simp [gstat]) rfl
+    | createGauge o p d du hs c st n =>
+      obtain ⟨⟨l, e1⟩, e2⟩ := createGauge_ext s o p d du hs c st n
+      exact NamedS_of_ext h l e1 e2
+    | addToGauge o g c => exact addToGauge_named s hi o g c h
+    | createStream sp c rs st e n =>
+      have : sp = false := hn
+      subst this
+      exact createStream_named s c rs st e n h
+    | terminateStream id => exact terminateStream_named s id h
+    | replaceDistr id rs => exact absurd hr (by unfold Op.noRetarget; exact fun x => x)
+    | updateDistr id rs => exact absurd hr (by unfold Op.noRetarget; exact fun x => x)
+    | distribution rs => exact h
+    | poolGauges d hs =>
+      obtain ⟨⟨l, e1⟩, e2⟩ := poolGaugesLoop_ext d hs lockableDurations s
+      exact NamedS_of_ext h l e1 e2
+
+theorem init_named (now mi : Nat) : NamedS (init now mi) := by
+  intro st hst
+  simp [init] at hst
+
+/-- **the invariant along every admissible history without sponsored streams** -/
+theorem run_named : ∀ (ops : List Op) (s : State), Inv s → NamedS s →
+    (∀ op ∈ ops, op.wf ∧ op.wfS ∧ op.noRetarget) → (∀ op ∈ ops, op.notSponsored) →
+    (run s ops).streams.length < maxU64 → NamedS (run s ops) := by
+  intro ops
+  induction ops with
+  | nil => intro s _ h _ _ _; exact h
+  | cons op rest ih =>
+    intro s hi hn hw hns hlen
+    unfold run at hlen ⊢
+    obtain ⟨w1, w2, w3⟩ := hw op List.mem_cons_self
+    have hw' : ∀ o ∈ rest, o.wf ∧ o.wfS ∧ o.noRetarget := fun o ho => hw o (List.mem_cons_of_mem _ ho)
+    have hst := step_sstep s op hi.ginv hi.struct w1 w2
+    have hg1 := step_ginv s op hi.ginv w1
+    have hm := (run_struct_mono rest _ hg1 hst.struct (fun o ho => ⟨(hw' o ho).1, (hw' o ho).2.1⟩)).2
+    have hl1 : (step s op).2.streams.length < maxU64 := Nat.lt_of_le_of_lt hm.1 hlen
+    exact ih _ (step_inv s op hi w1 w2 w3 hl1)
+      (step_named s op (idsT_of_idsOK _ hi.ginv.ids) hn w3 (hns op List.mem_cons_self)) hw'
+      (fun o ho => hns o (List.mem_cons_of_mem _ ho)) hlen
+
 end DymVerif.Incent
